@@ -34,8 +34,16 @@ package http2
 //   transport.go processData: `refund += pad` dropped                               -> "credit conserved"
 //   transport.go transportResponseBody.Close: `connAdd := cc.inflow.add(unread)`→`add(0)` -> "credit conserved"
 //   transport.go processData (unknown stream): drop the `cc.inflow.add(int(f.Length))` refund -> "credit conserved"
+//   transport.go transportResponseBody.Close: refund of the unread bytes moved behind the final select (skipped when
+//   Close leaves through ctx.Done / reqCancel)                       -> VerifC10_clientCloseTiming "credit conserved"
+//
+// VerifC10_clientCloseTiming (below) explores how the request ENDS: cancellation (context / Request.Cancel), the request
+// goroutine finishing before or after Body.Close, every arm of Close's select, DATA arriving in between, a second Close.
+//   C10-client-double-close-refunds-twice (KNOWN FINDING found by it): a second Response.Body.Close() returns the bytes
+//       the first Close discarded once more (pipe.Len() keeps reporting pipe.unread).
 
 import (
+	"context"
 	"io"
 
 	"golang.org/x/net/http2/hpack"
@@ -43,11 +51,13 @@ import (
 
 func init() {
 	vfRegister("VerifC10_clientLedger", VerifC10_clientLedger)
+	vfRegister("VerifC10_clientCloseTiming", VerifC10_clientCloseTiming)
 }
 
 const (
 	c10cKeyRead  = "C10-client-read-past-content-length"
 	c10cKeyProto = "C10-client-data-protocol-error-no-refund"
+	c10cKeyDbl   = "C10-client-double-close-refunds-twice"
 )
 
 // c10cInflow makes an arbitrary inflow satisfying the invariant inflow.add maintains between calls:
@@ -335,4 +345,180 @@ func c10cCheck(l *c10cLedger, cs *clientStream, bodyOpen bool, protoErr, overLen
 	vfAssertKF(int64(cc.inflow.avail) == l.peer, "connection window enforced == peer's view (DATA was accounted)", c10cKeyProto, protoErr)
 	// (2) nothing lost, nothing invented
 	vfAssertKF(l.peer+int64(cc.inflow.unsent)+held == l.configured, "credit conserved: peer's window + batched + buffered == configured", c10cKeyRead, overLength)
+}
+
+// VerifC10_clientCloseTiming — the "close patterns and timings" part of the statement on the client (shape B).
+//
+// VerifC10_clientLedger always lets Response.Body.Close see "request goroutine done" and never cancels the request.
+// Here the end of the request is the explored dimension. Four actors touch the stream: the read loop (DATA frames),
+// the application (Read, Close), whoever cancels the request (context / Request.Cancel) and the request goroutine
+// (writeRequest returns, cleanupWriteRequest forgets the stream and closes cs.donec). Explored orders:
+//
+//	HEADERS, DATA A, [app Read], [cancel: ctx | Request.Cancel], [request goroutine cleans up BEFORE Close],
+//	[late DATA B], Close (leaving through any select arm that can be ready), [late DATA C while the stream is closed by
+//	the app but not yet forgotten], request goroutine cleans up AFTER Close (if it has not yet), quiescence.
+//
+// Which arm of Close's final select is taken is decided by Go's select among the ready channels; the harness makes the
+// choice explicit (vfChoice over the arms that CAN be ready in the situation) and lets exactly that channel be ready
+// during the call, which is the same thing deterministically (the arms read nothing from the channels).
+// Oracle = the ledger of VerifC10_clientLedger after every event, and at quiescence everything came back.
+func VerifC10_clientCloseTiming() {
+	h := h2cNewConn()
+	cc := h.cc
+	u0 := int32(4093 * vfChoice("unsent0", 2)) // batched credit: none, or just below the WINDOW_UPDATE threshold
+	cc.inflow = inflow{avail: int32(h2cConnRecvWindow), unsent: u0}
+	l := &c10cLedger{h: h, configured: int64(cc.inflow.avail) + int64(cc.inflow.unsent), peer: int64(cc.inflow.avail)}
+	cs := h2cNewStream(cc)
+	cs.sentHeaders, cs.sentEndStream = true, true
+	h2cPutStream(cc, cs, 1)
+	cc.nextStreamID = 3
+	cc.readBeforeStreamID = 3
+	l.peerStream = int64(cs.inflow.avail)
+	c10cHeaders(h, 1, -1, false)
+	body := transportResponseBody{cs}
+	gone, closed, endSeen := false, false, false
+
+	data := func(label string, late bool) {
+		var n int
+		var padded bool
+		var pad uint8
+		switch {
+		case !late:
+			n = vfLen(label+".len", 1, 2)
+			padded, pad = c10cPad()
+		case vfTier() > 0:
+			n = vfLen(label+".len", 0, 2)
+			padded, pad = c10cPad()
+		default:
+			// frames that arrive while the stream is being torn down, quick tier: 1 byte, padding none or 2 (so that
+			// 4093 batched bytes cross the WINDOW_UPDATE threshold)
+			n = 1
+			if vfChoice(label+".padding", 2) == 1 {
+				padded, pad = true, 2
+			}
+		}
+		end := vfChoice(label+".endStream", 2) == 1
+		f := c10cData(1, vfBytes(label, n), padded, pad, end)
+		vfAssume(int64(f.Length) <= l.peer)
+		l.peer -= int64(f.Length)
+		if !gone {
+			vfAssume(int64(f.Length) <= l.peerStream)
+			l.peerStream -= int64(f.Length)
+		}
+		if err := h.rl.processData(f); err != nil {
+			vfAssert(false, "DATA within the windows is never a connection error")
+		}
+		if end && !gone && !cs.readAborted {
+			endSeen = true
+		}
+		l.drain()
+		c10cCheck(l, cs, !closed, false, false)
+	}
+	// the request goroutine: writeRequest returned err, cleanupWriteRequest runs
+	cancelKind := 0
+	cleanup := func() {
+		var err error
+		switch {
+		case cancelKind == 1:
+			err = context.Canceled
+		case cancelKind == 2:
+			err = errRequestCanceled
+		case closed:
+			err = cs.abortErr // errClosedResponseBody
+		}
+		// (cancelKind == 0 && !closed: only called once the peer closed the stream; writeRequest returned nil)
+		cs.cleanupWriteRequest(err)
+		gone = true
+		l.drain()
+		c10cCheck(l, cs, !closed, false, false)
+	}
+
+	// DATA A: something to leave unread
+	data("dataA", false)
+	// the application reads part of it (never blocks: only when bytes are buffered)
+	if rl := vfLen("readLen", 0, 2); rl > 0 && c10cHeld(cs) > 0 {
+		n, _ := body.Read(make([]byte, rl))
+		if n > 0 {
+			vfReach("read-before-close")
+		}
+		l.drain()
+		c10cCheck(l, cs, true, false, false)
+	}
+	// the request is cancelled (or not)
+	cancelKind = vfChoice("cancel", 3) // 0 no, 1 context cancelled / deadline, 2 Request.Cancel closed
+	// the request goroutine may notice (cancellation, or END_STREAM) and finish before the application calls Close
+	if (cancelKind != 0 || endSeen) && vfChoice("request goroutine finishes before Close", 2) == 1 {
+		cleanup()
+		vfReach("cleanup-before-close")
+	}
+	// late DATA B (server has not seen our RST_STREAM yet)
+	if !endSeen && vfChoice("late data before Close", 2) == 1 {
+		data("dataB", true)
+	}
+	// Close, leaving through one of the arms that can be ready
+	arms := []int{0} // donec: the request goroutine was done, or gets done (woken by Close's abortStream) before the select
+	if cancelKind != 0 {
+		arms = append(arms, cancelKind)
+	}
+	arm := arms[vfChoice("select arm", len(arms))]
+	ready := make(chan struct{})
+	close(ready)
+	realDonec := cs.donec
+	cs.donec, cs.ctx, cs.reqCancel = make(chan struct{}), context.Background(), nil
+	switch arm {
+	case 0:
+		cs.donec = ready
+	case 1:
+		ctx, cancel := context.WithCancel(context.Background())
+		cancel()
+		cs.ctx = ctx
+		vfReach("close-via-ctx-done")
+	case 2:
+		cs.reqCancel = ready
+		vfReach("close-via-reqCancel")
+	}
+	unreadAtClose := c10cHeld(cs) // what Close discards
+	err := body.Close()
+	cs.donec, cs.ctx, cs.reqCancel = realDonec, context.Background(), nil
+	closed = true
+	if arm == 2 {
+		vfAssert(err == errRequestCanceled, "Close reports the cancelled request")
+	} else {
+		vfAssert(err == nil, "Close returns nil")
+	}
+	l.drain()
+	c10cCheck(l, cs, false, false, false)
+	if !gone {
+		// late DATA C: the application closed the body, the request goroutine has not yet forgotten the stream
+		if !endSeen && vfChoice("late data after Close", 2) == 1 {
+			data("dataC", true)
+			vfReach("data-closed-not-forgotten")
+		}
+		cleanup()
+		vfReach("cleanup-after-close")
+	}
+	// the application closes the body a second time (defer res.Body.Close() after an explicit Close, or a wrapper
+	// such as gzipReader forwarding every Close): the discarded bytes were already returned
+	twice := vfChoice("second Close", 2) == 1
+	if twice {
+		if err := body.Close(); err != nil {
+			vfAssert(false, "second Close returns nil")
+		}
+		l.drain()
+		vfReach("closed-twice")
+	}
+	// KNOWN FINDING C10-client-double-close-refunds-twice: exactly the second Closes that follow a first Close which
+	// discarded unread bytes (those paths end at the KNOWN-FINDING report, hence no reach marker for them; a second Close
+	// after everything was read is harmless and reaches "closed-twice")
+	dbl := twice && unreadAtClose > 0
+	cc.mu.Lock()
+	vfAssert(c10cInflowInv(cc.inflow), "inflow invariant")
+	vfAssert(int64(cc.inflow.avail) == l.peer, "connection window enforced == peer's view")
+	vfAssertKF(l.peer+int64(cc.inflow.unsent) == l.configured, "quiescent: the peer's connection window is back to its configured size (minus the batched remainder)", c10cKeyDbl, dbl)
+	vfAssert(cc.inflow.unsent < inflowMinRefresh, "batched remainder below inflowMinRefresh")
+	vfAssert(len(cc.streams) == 0, "stream removed")
+	cc.mu.Unlock()
+	vfObserve("peer", uint64(l.peer))
+	vfObserve("unsent", uint64(cc.inflow.unsent))
+	vfReach("end")
 }
